@@ -40,7 +40,7 @@ ASSUMPTIONS = [
 TRUSTED = ["z3 5.1", "vf.symx", "vf.rigs.fakeos path model (validated each run)"]
 
 ROOT = "/wh/tbl"
-COMPONENTS = ["..", ".", "", "data", "metadata", "x", "li", "lo", "secret.txt", "f.parquet"]
+COMPONENTS = ["..", ".", "", "data", "metadata", "x", "li", "lo", "lk", "secret.txt", "f.parquet"]
 HEADS = ["", "/", "//", "/wh/tbl2/", "/outside/", "/wh/tbl/", "../tbl2/", "/wh/tbl/../tbl2/"]
 ENTRY = ["read_file", "open_file", "open_seekable", "write_file", "exists", "list_files", "delete_file", "makedirs", "get_size",
          "get_modified_time", "create_lock", "open_parquet_source", "read_data_file", "validate_file_exists", "write_data_file"]
@@ -63,7 +63,32 @@ def build_tree(fos):
     fos.put_symlink("/wh/tbl/li", "data")
     fos.put_symlink("/wh/tbl/lo", "/outside")
     fos.put_symlink("/wh/tbl/data/lo", "../../tbl2")
+    fos.put_symlink("/wh/tbl/lk", "/outside/planted.lock")   # dangling: names a file that does not exist (yet) outside the root
     fos.put_symlink("/lnk", "/wh/tbl")
+
+
+def swap_out_symlinks(fos):
+    """replace every symlink inside the root by a real directory / file with the same name (the state BEFORE an attacker or an
+    operator re-points them); swap_in_symlinks restores the arrangement of build_tree."""
+    for p in ("/wh/tbl/li", "/wh/tbl/lo", "/wh/tbl/data/lo", "/wh/tbl/lk"):
+        fos.remove(p)
+    for d in ("/wh/tbl/li", "/wh/tbl/lo", "/wh/tbl/data/lo"):
+        fos.mkdir_durable(d)
+        fos.put_file(d + "/secret.txt", b"inside-harmless")
+        fos.put_file(d + "/f.parquet", b"inside-harmless")
+        fos.put_file(d + "/x", b"inside-harmless")
+    fos.put_file("/wh/tbl/lk", b"inside-harmless")
+
+
+def swap_in_symlinks(fos):
+    for d in ("/wh/tbl/li", "/wh/tbl/lo", "/wh/tbl/data/lo"):
+        fos.rmtree(d, ignore_errors=True)
+    if fos._lookup("/wh/tbl/lk", follow=False) is not None:
+        fos.remove("/wh/tbl/lk")
+    fos.put_symlink("/wh/tbl/li", "data")
+    fos.put_symlink("/wh/tbl/lo", "/outside")
+    fos.put_symlink("/wh/tbl/data/lo", "../../tbl2")
+    fos.put_symlink("/wh/tbl/lk", "/outside/planted.lock")
 
 
 def fingerprint(fos):
@@ -109,21 +134,79 @@ def _leaks(v):
     return False
 
 
-def entry(sp, entry="read_file", via_link=False, depth=3):
+def _call(entry, t, st, dfm, path):
+    if entry == "read_file":
+        return st.read_file(path)
+    if entry == "open_file":
+        with st.open_file(path) as f:
+            return f.read()
+    if entry == "open_seekable":
+        with st.open_seekable(path) as f:
+            return f.read()
+    if entry == "write_file":
+        return st.write_file(path, b"written-by-test")
+    if entry == "exists":
+        return st.exists(path)
+    if entry == "list_files":
+        return st.list_files(path)
+    if entry == "delete_file":
+        return st.delete_file(path)
+    if entry == "makedirs":
+        return st.makedirs(path)
+    if entry == "get_size":
+        return st.get_size(path)
+    if entry == "get_modified_time":
+        return st.get_modified_time(path)
+    if entry == "create_lock":
+        lk = st.create_lock(path, timeout=0.01)
+        lk.acquire()
+        lk.release()
+        return None
+    if entry == "open_parquet_source":
+        with dfm.open_parquet_source(path) as f:
+            return f.read()
+    if entry == "read_data_file":
+        return dfm.read_data_file(path)
+    if entry == "validate_file_exists":
+        return t.file_manager.validate_file_exists(path)
+    if entry == "write_data_file":
+        return dfm.write_data_file(path, [{"a": 1}], SCH)
+    raise AssertionError(entry)
+
+
+def entry(sp, entry="read_file", via_link=False, depth=3, warm=False):
     with Env(sp, rig="L", root="/lnk" if via_link else ROOT, clock="tick") as e:
         w = e.world
         fos = e.fos
         with w.inspect():
             build_tree(fos)
+            if warm:
+                swap_out_symlinks(fos)
         from datashard.storage_backend import LocalStorageBackend
         from datashard.transaction import Table
         t = Table(e.root, create_if_not_exists=False)
         st = t.storage
         dfm = t.file_manager.data_file_manager
+        path = pick_path(sp, depth)
+        if warm:
+            # the SAME handle uses the SAME path string once while every component is still an ordinary directory / file; then the
+            # components are re-pointed (symlinks leaving the root) and the path is used again: nothing remembered from the first
+            # use may stand in for the boundary check
+            try:
+                _call(entry, t, st, dfm, path)
+            except Exception:  # noqa
+                pass
+            with w.inspect():
+                swap_in_symlinks(fos)
+                for pth, data in (("/wh/tbl/data/f.parquet", b"inside-data"), ("/wh/tbl/x", b"inside-x")):
+                    if fos._lookup(pth) is None:
+                        try:
+                            fos.put_file(pth, data)
+                        except Exception:  # noqa
+                            pass
         with w.inspect():
             fp0 = fingerprint(fos)
         croot = fos._resolve(e.root)[0]
-        path = pick_path(sp, depth)
         # canonical target as the single resolver defines it: table-relative, leading slashes stripped
         joined = os.path.join(croot, path.lstrip("/")) if True else None
         with w.inspect():
@@ -139,48 +222,14 @@ def entry(sp, entry="read_file", via_link=False, depth=3):
         raised = None
         got = None
         try:
-            if entry == "read_file":
-                got = st.read_file(path)
-            elif entry == "open_file":
-                with st.open_file(path) as f:
-                    got = f.read()
-            elif entry == "open_seekable":
-                with st.open_seekable(path) as f:
-                    got = f.read()
-            elif entry == "write_file":
-                st.write_file(path, b"written-by-test")
-            elif entry == "exists":
-                got = st.exists(path)
-            elif entry == "list_files":
-                got = st.list_files(path)
-            elif entry == "delete_file":
-                st.delete_file(path)
-            elif entry == "makedirs":
-                st.makedirs(path)
-            elif entry == "get_size":
-                got = st.get_size(path)
-            elif entry == "get_modified_time":
-                got = st.get_modified_time(path)
-            elif entry == "create_lock":
-                lk = st.create_lock(path, timeout=0.01)
-                lk.acquire()
-                lk.release()
-            elif entry == "open_parquet_source":
-                with dfm.open_parquet_source(path) as f:
-                    got = f.read()
-            elif entry == "read_data_file":
-                got = dfm.read_data_file(path)
-            elif entry == "validate_file_exists":
-                got = t.file_manager.validate_file_exists(path)
-            elif entry == "write_data_file":
-                dfm.write_data_file(path, [{"a": 1}], SCH)
+            got = _call(entry, t, st, dfm, path)
         except Exception as ex:  # noqa
             raised = ex
         sp.note("path", path)
         sp.note("canonical", canon)
         sp.note("outcome", type(raised).__name__ if raised else "returned")
         sp.reach("ran")
-        tag = f"{entry}:{'link' if via_link else 'direct'}"
+        tag = f"{entry}:{'link' if via_link else 'direct'}{':re-pointed-after-first-use' if warm else ''}"
         bad = [(op, p) for (op, p) in fos.access_log[n0:] if outside(p, croot)]
         sp.require(not bad, f"{tag}: path {path!r} made the library {bad[0][0] if bad else ''} {bad[0][1] if bad else ''} outside the table root {croot}",
                    {"sig": f"{entry}:access-outside:{bad[0][0] if bad else ''}"})
@@ -285,6 +334,70 @@ def tampered(sp, what="manifest_entry", via_link=False, depth=3):
                                {"sig": f"tampered:{what}:{opn}-returned"})
 
 
+LOCK_PLANTS = [("lockfile_abs", ".locks/metadata.lock", "/outside/planted_by_commit"),
+               ("lockfile_rel", ".locks/metadata.lock", "../../../outside/planted_by_commit"),
+               ("lockfile_sibling", ".locks/metadata.lock", "../../tbl2/planted_by_commit"),
+               ("lockdir", ".locks", "/outside/sub")]
+
+
+def planted_lock(sp, via_link=False):
+    """The table's own lock file (or its directory) is a symlink leaving the root - dangling, so that taking the lock would CREATE the
+    target.  Creating the table, committing and taking the lock directly must not create, open or lock anything outside."""
+    with Env(sp, rig="L", root="/lnk" if via_link else ROOT, clock="tick") as e:
+        w = e.world
+        fos = e.fos
+        with w.inspect():
+            build_tree(fos)
+            for p in ("/wh/tbl/data/f.parquet", "/wh/tbl/x"):
+                fos.remove(p)
+            fos.remove("/wh/tbl/data/lo")
+        existing = sp.choose(2, name="table_exists_before_the_plant")
+        if existing:
+            t0 = e.table(schema=SCH)
+            t0.append_records([{"a": 1}])
+        name, rel, target = LOCK_PLANTS[sp.choose(len(LOCK_PLANTS), name="plant")]
+        with w.inspect():
+            full = "/wh/tbl/" + rel
+            if fos._lookup(full, follow=False) is not None:
+                (fos.rmtree if name == "lockdir" else fos.remove)(full)
+            if name != "lockdir" and fos._lookup("/wh/tbl/.locks") is None:
+                fos.mkdir_durable("/wh/tbl/.locks")
+            fos.put_symlink(full, target)
+            fp0 = fingerprint(fos)
+        croot = fos._resolve(e.root)[0]
+        n0 = len(fos.access_log)
+        outcomes = {}
+
+        def create_and_append():
+            t = e.table(schema=SCH)
+            t.append_records([{"a": 2}])
+
+        def take_lock():
+            t = e.table(schema=SCH) if existing else None
+            from datashard.storage_backend import LocalStorageBackend
+            st = t.storage if t is not None else LocalStorageBackend(e.root)
+            lk = st.create_lock(".locks/metadata.lock", timeout=0.01)
+            lk.acquire()
+            lk.release()
+        for opn, fn in (("create+append", create_and_append), ("create_lock", take_lock)):
+            try:
+                fn()
+                outcomes[opn] = "returned"
+            except Exception as ex:  # noqa
+                outcomes[opn] = f"{type(ex).__name__}: {str(ex)[:60]}"
+        sp.note("planted", f"{rel} -> {target}")
+        sp.note("outcomes", outcomes)
+        sp.reach("ran")
+        tag = f"planted_lock:{name}:{'link' if via_link else 'direct'}"
+        bad = [(op, p) for (op, p) in fos.access_log[n0:] if outside(p, croot)]
+        sp.require(not bad, f"{tag}: with {rel} -> {target} the library did '{bad[0][0] if bad else ''}' on {bad[0][1] if bad else ''} outside the table root",
+                   {"sig": f"planted_lock:{name}:access-outside"})
+        with w.inspect():
+            fp1 = fingerprint(fos)
+        sp.require(fp0 == fp1, f"{tag}: with {rel} -> {target} files outside the table root were created / changed: "
+                   f"{sorted(set(fp1) ^ set(fp0)) or [k for k in fp0 if fp0[k] != fp1.get(k)]}", {"sig": f"planted_lock:{name}:sentinel-changed"})
+
+
 def realpath_model_check():
     """native: FakeOS._resolve == os.path.realpath on the same tree for every grammar path (both root spellings)."""
     from vf.rigs.fakeos import FakeOS
@@ -304,13 +417,14 @@ def realpath_model_check():
         os.symlink("data", real("/wh/tbl/li"))
         os.symlink(real("/outside"), real("/wh/tbl/lo"))
         os.symlink("../../tbl2", real("/wh/tbl/data/lo"))
+        os.symlink(real("/outside/planted.lock"), real("/wh/tbl/lk"))
         os.symlink(real("/wh/tbl"), real("/lnk"))
         bad = []
         for root in ("/wh/tbl", "/lnk"):
             for h in HEADS:
                 for nc in (1, 2, 3):
                     for comps in itertools.product(COMPONENTS, repeat=nc):
-                        if nc == 3 and comps[0] not in ("..", "lo", "li", "data", ""):
+                        if nc == 3 and comps[0] not in ("..", "lo", "li", "lk", "data", ""):
                             continue
                         for sep in ("/", "//"):
                             p = h + sep.join(comps)
@@ -344,6 +458,16 @@ def obligations(tier):
             obs.append(Ob(f"entry.{en}.{'link' if vl else 'direct'}", "vf.props.c17:entry", {"entry": en, "via_link": vl, "depth": D, "_must_reach": ["ran"], "_sample_every": 200},
                           timeout=T, bounds=f"entry point {en}, root {'via symlink' if vl else 'direct'}, every grammar path (8 heads x <= {D} components x 2 separators)",
                           weight=5))
+    warm_entries = ["read_file", "write_file", "delete_file", "open_parquet_source", "list_files"] if tier == "quick" else ENTRY
+    for en in warm_entries:
+        obs.append(Ob(f"repointed.{en}", "vf.props.c17:entry", {"entry": en, "via_link": False, "depth": 2 if tier == "quick" else 3, "warm": True,
+                                                                 "_must_reach": ["ran"], "_sample_every": 200},
+                      timeout=T, bounds=f"entry point {en}: the same handle used the same path once while its components were ordinary directories; "
+                                        f"they are then re-pointed (symlinks leaving the root) and the path is used again; every grammar path", weight=5))
+    for vl in (False, True):
+        obs.append(Ob(f"planted_lock.{'link' if vl else 'direct'}", "vf.props.c17:planted_lock", {"via_link": vl, "_must_reach": ["ran"]}, timeout=T,
+                      bounds="the table's lock file / lock directory is a dangling symlink leaving the root (4 plants x table exists or not); "
+                             "create + append, create_lock + acquire", weight=2))
     for what in ("manifest_entry", "manifest_list_path", "manifest_path", "marker_payload"):
         for vl in ((False, True) if tier == "thorough" else (False,)):
             obs.append(Ob(f"tampered.{what}.{'link' if vl else 'direct'}", "vf.props.c17:tampered", {"what": what, "via_link": vl, "depth": D, "_must_reach": ["ran"], "_sample_every": 200},
